@@ -1,10 +1,51 @@
 """C03 check driver."""
 from pyvc.driver import Check
-from props import c03
+from props import c03, c03_concrete
+
+ASSUMPTIONS = [
+    "Induction step: member routines are assumed Conf-sound; lifting to every T in U and every depth is structural "
+    "induction on T / induction on the size of the value (meta-lemmas M2, M3: paper argument).",
+    "Calling a class returns an instance of exactly that class (no __new__ overrides in U); datetime.fromtimestamp "
+    "returns a datetime.datetime, x.replace(...) keeps x's class, x.time()/x.date() return datetime.time/date, "
+    "re.compile returns a re.Pattern, str()/int()/float() return instances of those classes.",
+    "Every other call into the standard library / pendulum / serdes.dateparse returns an arbitrary value or raises "
+    "(havoc): sound for a property that allows raising.",
+    "Builtin container constructors called on an iterable return an instance of that class holding exactly the "
+    "produced elements; inspection.origin(t) is a concrete class of t's kind (C17 contract); issubclass facts for the "
+    "classes named in the code are read from the running interpreter.",
+    "The dispatch (_HANDLERS) gives each routine class a target of the stated base class (C15/C17).",
+    "Union results are member-routine results (C08's first-acceptor clause).",
+]
+
+
+def searcher(ob):
+    fails, n, d = c03_concrete.search(stop_at=1)
+    if fails:
+        return {"found": True, "kind": "c03-input", "case": fails[0], "searched": n}
+    return {"found": False, "searched": n, "engine": ob.meta.get("engine"),
+            "note": "type-pool x (generic + corrupted wire) inputs: every returned value conforms"}
+
+
+def replay(data):
+    case = data.get("case")
+    if not case:
+        print("replay: no concrete input recorded for", data.get("obligation"), data.get("solver"))
+        return 1
+    r = c03_concrete.run_recorded(case)
+    print("replay", case["type"], case["input"], "->", r)
+    return 1 if r else 0
 
 
 def main(tier, seed):
     chk = Check("C03", tier, seed)
+    chk.assumptions = list(ASSUMPTIONS)
     c03.obligations(chk)
-    chk.resolve_failures(None)
+    if tier == "thorough":
+        fails, n, d = c03_concrete.search(stop_at=3)
+        chk.bounded.append({"name": "bounded cross-check: type pool x (generic inputs + corrupted wire forms) on the real unmarshal",
+                            "evaluations": n, "distinct_nontrivial": d, "failures": len(fails),
+                            "rule": "every pool type x 33 generic inputs + wire forms of valid values with a field dropped/renamed/retyped, element removed/added, nesting changed"})
+        for f in fails:
+            chk.violation("bounded-cross-check :: " + f["type"], {"found": True, "kind": "c03-input", "case": f}, True)
+    chk.resolve_failures(searcher)
     return chk.finish()
